@@ -196,7 +196,13 @@ def run(res):
     else:
         fsel = flagsets
     nw = len(windows)
+    paths0, moves0 = paths, moves
     for fi, fl in enumerate(fsel):
+        # every other flag set sees the whole universe below a directory whose name starts with 'tmp.' (what
+        # `mktemp -d` makes): only the FILE name decides whether a path is an in-progress file
+        pre = "/tmp.capture" if fi % 2 else ""
+        paths = [(pre + p, c) for p, c in paths0]
+        moves = [[pre + q for q in mv] for mv in moves0]
         cases = [[9] + L.enc_flags(fl) + L.enc_word(p) + [x for q in mv for x in L.enc_word(q)]
                  for (p, _), mv in zip(paths, moves)]
         model = common.run_model("listing", cases)
@@ -270,6 +276,7 @@ def run(res):
     res.sample({"event": ["moved", "/w/ch0/2017-07-14T02-00-00/tmp.rf@1500000000.000.h5",
                           "/w/ch0/2017-07-14T02-00-00/rf@1500000000.000.h5"], "delivered": "created(dest)"})
 
+    paths, moves = paths0, moves0
     listing_leg(res, Rec, paths, windows, flagsets)
 
     # ---- guard the extraction on a sample
@@ -319,7 +326,7 @@ def listing_leg(res, Rec, paths, windows, flagsets):
     wsel = windows if res.tier == "thorough" else [w for i, w in enumerate(windows) if i % 3 == 0 or None in w]
     fsel = flagsets if res.tier == "thorough" else [fl for fl in flagsets if None not in fl[2:]] + flagsets[:3]
     for kind, props in kinds.items():
-        top = os.path.join(root, kind)
+        top = os.path.join(root, ("tmp." + kind) if kind in ("dmd", "standard") else kind)
         for p in data_paths:
             L.touch(top + p)
         for ch in chans:
